@@ -152,7 +152,7 @@ def coq_build(prop_id, timeout=900):
         return res
 
 
-def coqchk(prop_id, timeout=3000):
+def coqchk(prop_id, timeout=2400):
     """coqchk -o on Properties_<id> and its whole dependency closure."""
     cmd = 'timeout %d coqchk -o -silent -Q theories GMGP -Q gen GMGPGen GMGP.Properties_%s' % (timeout, prop_id)
     rc, out, secs = sh(cmd, cwd=COQ, timeout=timeout + 30)
@@ -170,7 +170,7 @@ def coqchk(prop_id, timeout=3000):
         elif l and sect and sect.startswith(('Constants/Inductives relying', 'Inductives whose')) and l != '<none>':
             bad.append(sect + ': ' + l)
     ok = rc == 0 and not bad
-    return {'ok': ok, 'secs': round(secs, 1), 'axioms': axioms, 'log': out,
+    return {'ok': ok, 'timed_out': rc == 124, 'secs': round(secs, 1), 'axioms': axioms, 'log': out,
             'summary': ('coqchk ok, %d axioms in the closure' % len(axioms)) if ok else ('coqchk rc=%s %s' % (rc, '; '.join(bad)[:200]))}
 
 
